@@ -106,6 +106,9 @@ func TestZZReplay(t *testing.T) {
 	for _, l := range zzLoad().Failed {
 		fmt.Println("ZZ-FAILED:", l)
 	}
+	for _, l := range zzNotes {
+		fmt.Println("ZZ-NOTE:", l)
+	}
 	for _, l := range zzLoad().Reached {
 		fmt.Println("ZZ-REACHED:", l)
 	}
